@@ -40,6 +40,25 @@ pub fn ctx() -> c2pa::Context {
     c2pa::Context::new().with_settings(settings()).expect("settings")
 }
 
+/// Like `ctx()`, but with the SDK's default automatic thumbnail generation switched on
+/// (ingredient ingestion then runs the `image` crate decoders on the untrusted bytes).
+pub fn ctx_thumbnails() -> c2pa::Context {
+    static S: OnceLock<c2pa::settings::Settings> = OnceLock::new();
+    let s = S.get_or_init(|| {
+        settings()
+            .with_json(r#"{"builder": {"thumbnail": {"enabled": true, "long_edge": 64}}}"#)
+            .expect("thumbnail settings")
+    });
+    c2pa::Context::new().with_settings(s).expect("settings")
+}
+
+/// The ed25519 fixture signer (PEM files read once per process).
+pub fn signer() -> Box<dyn c2pa::Signer + Send + Sync> {
+    static K: OnceLock<(Vec<u8>, Vec<u8>)> = OnceLock::new();
+    let (c, k) = K.get_or_init(|| vh::sdk::credential("ed25519"));
+    c2pa::create_signer::from_keys(c, k, c2pa::SigningAlg::Ed25519, None).expect("fixture signer")
+}
+
 /// Context with explicit settings JSON merged over `SETTINGS`.
 pub fn ctx_with(extra: &serde_json::Value) -> c2pa::Context {
     let mut base: serde_json::Value = serde_json::from_str(SETTINGS).unwrap();
